@@ -195,7 +195,8 @@ Proof. cbn. repeat split; [discriminate|]. numR. unfold Rabs. repeat destruct (R
     instantiate it with the trap=True branch of the generated velocity function, which is what AccSignal.velocity calls.
     NOT proved (still only decided by the correspondence): that NumPy/SciPy's cumsum, cumulative_trapezoid, diff, insert,
     abs are the list primitives of lib/NpList.v (the translator's reading of each whitelisted call), binary64 rounding,
-    the object layer (AccSignal.velocity caching), and calc_cav_dp (loop over windows: outside the translator's grammar). *)
+    the object layer (AccSignal.velocity caching).  calc_cav_dp (a loop over windows) has its own translator: see the last
+    section of this file. *)
 From EQ Require Import gen.Gen_quadrature proofs.P_gen_quadrature.
 
 Theorem C09_arias_is_source : forall (T : Type) (ops : NumOps T) (pi dt : T) (a : list T),
@@ -221,3 +222,46 @@ Proof. exact (@P_gen_quadrature.gen_unit_ke_eq). Qed.
 Theorem C09_unit_ke_empty_differs : forall (T : Type) (ops : NumOps T) (dt : T),
   gen_unit_ke (fst (gen_velo_disp true dt [])) <> unit_ke dt [].
 Proof. exact (@P_gen_quadrature.gen_unit_ke_empty_differs). Qed.
+
+(** *** The standardised-CAV model is the source (translator tie for calc_cav_dp).
+    gen/Gen_cavdp.v is re-translated from /repo's eqsig/im.py: calc_cav_dp at the start of every run of this check
+    (translator/py2coq_cavdp.py: Python [ast], fail-closed; the loop body becomes [gen_cav_dp_step] over the carried names
+    (start, pga_max, cav_dp, cav_dp_1_series), iterated int(time[-1]) times; every statement that can raise is a [res_bind]).
+    PROVED at R, for every record [a] and every dt with an integer number pps of samples per second (dt * pps = 1, the guard of
+    C09_cavdp_between .. C09_cavdp_final), with the source's own g = 9.81, gate 0.025, pps = int(1 / dt), number of windows
+    nwin = int(time[-1]) and time = arange(npts) * dt: if the record holds at least one whole second, NO statement of the
+    source raises and the returned series IS [cav_dp 9.81 0.025 dt pps nwin a] -- so every C09_cavdp_* theorem above holds
+    of the translated source.  A non-empty record shorter than one second makes the source raise ValueError (np.interp on
+    an empty xp), an empty record IndexError (time[-1]); both confirmed on eqsig.  The model's [interp_grid] is np.interp on
+    the integer grid (C09_interp_grid_is_np_interp).
+    NOT proved (trusted readings, lib/NpLoop.v, validated by the correspondence): that np.arange(lo, hi, step),
+    v[np.where(mask)], scipy trapezoid(y, x), np.interp, the builtin max and the append loops are the list functions they
+    are read as; binary64 rounding (in floating point np.arange(start*dt, start*dt + 1, dt) can hold pps + 1 points; the
+    harness counts those cases as fragile); ZeroDivisionError / OverflowError of int(1 / dt) for dt = 0. *)
+From EQ Require Import lib.PyRes lib.NpLoop gen.Gen_cavdp proofs.P_gen_cavdp.
+
+Theorem C09_cavdp_is_source : forall (dt : R) (pps : nat) (a : list R), (1 <= pps)%nat -> dt * IZR (Z.of_nat pps) = 1 ->
+  let nwin := Z.to_nat (nfloor (last (times dt (length a)) 0)) in (1 <= nwin)%nat ->
+  gen_cav_dp dt (times dt (length a)) a = PyOk (cav_dp 9.81 0.025 dt pps nwin a).
+Proof. exact P_gen_cavdp.gen_cav_dp_eq_literals. Qed.
+Theorem C09_cavdp_source_short_record_raises : forall (dt : R) (pps : nat) (a : list R), (1 <= pps)%nat -> dt * IZR (Z.of_nat pps) = 1 ->
+  a <> [] -> Z.to_nat (nfloor (last (times dt (length a)) 0)) = 0%nat ->
+  gen_cav_dp dt (times dt (length a)) a = PyRaise ValueError.
+Proof. exact P_gen_cavdp.gen_cav_dp_short. Qed.
+Theorem C09_cavdp_source_empty_record_raises : forall dt : R, gen_cav_dp dt [] [] = PyRaise IndexError.
+Proof. exact P_gen_cavdp.gen_cav_dp_empty. Qed.
+(** one pass of the source loop is one step of the model's window recursion (the running total that is appended) *)
+Theorem C09_cavdp_step_is_source : forall (dt : R) (pps : nat), (1 <= pps)%nat -> dt * IZR (Z.of_nat pps) = 1 ->
+  forall (ag : list R) (s : nat) (pm acc : R) (ser : list R), (s + pps < length ag)%nat ->
+  exists pm', gen_cav_dp_step dt (Z.of_nat pps) ag (Z.of_nat s, pm, acc, ser)
+            = PyOk (Z.of_nat (s + pps), pm', hd 0 (cavdp_windows (1 / 40) dt pps 1 s acc ag),
+                    ser ++ cavdp_windows (1 / 40) dt pps 1 s acc ag).
+Proof. exact P_gen_cavdp.gen_step_eq. Qed.
+Theorem C09_interp_grid_is_np_interp : forall (ws : list R) (t : R), ws <> [] ->
+  np_interp (np_arange1 (Z.of_nat (length ws))) ws t = interp_grid ws t.
+Proof. exact P_gen_cavdp.np_interp_arange. Qed.
+(** the source tie is not vacuous: the guards are met by the gate-passing record of C09_cavdp_nonvacuous *)
+Example C09_cavdp_source_nonvacuous : let a := [9.81; 9.81; 9.81; 9.81; 9.81] in
+  (1 <= 2)%nat /\ (1/2) * IZR (Z.of_nat 2) = 1 /\ Z.to_nat (nfloor (last (times (1/2) (length a)) 0)) = 2%nat /\
+  gen_cav_dp (1/2) (times (1/2) (length a)) a = PyOk (cav_dp 9.81 0.025 (1/2) 2 2 a).
+Proof. exact P_gen_cavdp.gen_cav_dp_example. Qed.
